@@ -43,6 +43,7 @@ func c13Grammar(rng interface{ Intn(int) int }, n int) []string {
 	pre := []string{"", "", "", "", " ", "\t", "\n", "\x00", " "}
 	out := []string{
 		"https://app.example.com/cb/..\\..\\userfiles/x.html", "https://www.example.com/a/..\\b", "https://app.other.test/x/..\\..\\y",
+		"https://cdn.corp-identity.test/cb", "https://cdn.corp-%C4%B0dentity.test/cb", "https://cdn.corp-İdentity.test/cb", "https://corp-İdentity.test/", "https://cdn.CORP-IDENTITY.test/cb",
 		"https://app.example.com/cb", "https://example.com/", "https://evilexample.com/cb", "https://example.com.evil.net/cb",
 		"https://app.example.com/cb?x=1", "http://app.example.com/cb", "https://app.example.com/a/../cb", "https://evil.net/cb",
 		"https://app.example.com@evil.net/cb", "https://evil.net\\@app.example.com/cb", "https://evil.net#@app.example.com/cb",
@@ -81,6 +82,8 @@ func TestVerifC13(t *testing.T) {
 		// configured with must not show up in (or displace) what another client is allowed
 		{"partner-domains", []string{"partner.test", "zeta.test"}, nil},
 		{"single-domain", []string{"solo.test"}, nil},
+		// a domain with letters that have non-ASCII case variants (U+0130 lower-cases to "i" in Go, not in a browser)
+		{"identity-domain", []string{"corp-identity.test"}, nil},
 	}
 	mkEnv := func(cl []c13Client) (*verifEnv, error) {
 		var y strings.Builder
@@ -181,6 +184,19 @@ func TestVerifC13(t *testing.T) {
 		if cl.ID == "unknown-client" || cl.ID == "none" {
 			rep.Violate("C13/code-to-unconfigured-client/"+cl.ID, "a client without configured hosts/patterns (or unknown) received a code", cs)
 			return
+		}
+		// a host with U+0130 (raw or percent-encoded) is, for a browser, an internationalised name of its own
+		// (IDNA maps it to "i" + combining dot, an xn-- label): never a host of an ASCII domain of the list
+		if i := strings.Index(loc, "://"); i >= 0 {
+			auth := loc[i+3:]
+			if j := strings.IndexAny(auth, "/?#"); j >= 0 {
+				auth = auth[:j]
+			}
+			if la := strings.ToLower(auth); strings.Contains(la, "%c4%b0") || strings.Contains(auth, "\u0130") {
+				cs.Note = "host-off-list (non-ASCII letter folded to ASCII)"
+				rep.Violate("C13/host-off-list/unicode-fold/"+cl.ID, "authorization code redirected to a host that is an internationalised look-alike of a listed domain", cs)
+				return
+			}
 		}
 		// the Location the browser follows is what was emitted, not what was sent
 		lb, lok := verifBrowserParse(loc)
